@@ -8,6 +8,7 @@
   The tie to the Python is the C07 / C08 correspondence; the harness also walks every real output (`single_world` tag).
 -/
 import Y0.Lemmas.CfIdStar
+import Y0.Lemmas.CfIdcStar
 
 namespace Y0.Cf
 
@@ -20,6 +21,12 @@ theorem idstar_vocab (ordf : List World → List World) (dordf : List Var → Li
 theorem idstar_vocab_fuel (ordf : List World → List World) (dordf : List Var → List Var) (G : MG Name) (fuel : Nat)
     (ev : Event) (e : Expr) (h : idStarFuel ordf dordf G fuel ev = .ok e) : SingleWorld e :=
   idStarFuel_singleWorld ordf dordf G fuel ev e h
+
+/-- every estimand IDC* returns is built from single-world interventional terms (`Expression.conditional` only divides an
+ID* estimand by a sum of itself) -/
+theorem idcstar_vocab_c06 (ordf : List World → List World) (dordf kordf : List Var → List Var) (G : MG Name)
+    (outcomes conditions : Event) (e : Expr) (h : idcStar ordf dordf kordf G outcomes conditions = .ok e) : SingleWorld e :=
+  idcStarFuel_singleWorld ordf dordf kordf G _ outcomes conditions e h
 
 /-- non-vacuity: a two-world term is rejected by the predicate, a one-world term accepted -/
 example : ¬ SingleWorld (.prob none [⟨0, none, false, [⟨1, false⟩]⟩, ⟨2, none, false, []⟩] []) := by
